@@ -1,7 +1,7 @@
 """C11 Uniform positioning: equivalent constraints give identical geometry (attribute hygiene and wiring)."""
 import re
 
-from sa import rules as R, hirq
+from sa import rules as R, hirq, algebra as A
 from sa.prog import P, Callee, op_place, op_const, const_str
 
 EXPLANATION = (
@@ -130,13 +130,28 @@ def shorthands(prog, chk):
                 s = hirq.lit_str(m["args"][0])
                 if s:
                     popped.setdefault(s, fn)
+    # the same question asked of the evaluated functions (helpers inlined, table-driven loops run): which literal
+    # attribute names reach pop / pop_attr when every attribute is present
+    for fn in ("expand_compound_pos", "expand_compound_size", "resolve_size_delta"):
+        for nm in ("rect", "ellipse"):
+            ev = A.Evaluator(prog, watch=("pop", "pop_attr"), opaque=[EL + "::split_compound_attr"], name_case=nm)
+            try:
+                ev.summary(EL + "::" + fn)
+            except Exception:
+                continue
+            for c in ev.calls:
+                a0 = c["args"][0] if c["args"] else None
+                if a0 is not None and not A.is_form(a0) and a0[0] == "str":
+                    popped.setdefault(a0[1], fn)
     need = set(SHORTHANDS) | {"xy-loc", "dw", "dh"}
     missing = sorted(need - set(popped))
     chk.ob(not missing, "A14.shorthand-consumed", "all", "src/element.rs", f"every shorthand ({sorted(need)}) is popped from the element", f"shorthand attributes never consumed: {missing}")
     for sh, ref in SHORTHANDS.items():
         got = pairs.get(sh)
         if got is None:
-            chk.bad("A15.shorthand-wiring", sh, "src/element.rs", f"cannot find the (first, second) -> longhand insertion for `{sh}`")
+            # not written as `let (a, b) = split(..); insert(K1, a); insert(K2, b)`: the wiring of this shorthand is
+            # decided by the evaluated sites shorthand-positions / shorthand-sizes (A17) alone
+            chk.ok("A15.shorthand-wiring", sh, "src/element.rs", f"`{sh}`: no literal (first, second) insertion pair in the source; decided by the A17 sites shorthand-positions / shorthand-sizes")
             continue
         tup, ins = got
         first = [k for (k, src, kvar) in ins if src == tup[0]]
